@@ -225,6 +225,8 @@ class Atoms:
 
         self.atom_type_masses = np.array(atom_type_masses, ndmin=1)
         self.positions = np.array(positions, dtype=float, ndmin=1)
+        if self.positions.size == 0:
+            self.positions = self.positions.reshape((0, 3))
 
         if cell is not None:
             self.cell = np.array(cell)
@@ -274,7 +276,7 @@ class Atoms:
         else:
             # no atom_type_elements or elements passed
             # this should be the `Atoms()` case; if not, it will fail the asserts below
-            self.atom_types = np.array([], ndmin=1)
+            self.atom_types = np.array([], dtype=int, ndmin=1)
             self.atom_type_elements = []
 
         # automatically determine masses from elements if masses are not passed
